@@ -3,7 +3,7 @@
 EXTENDS Picker
 CONSTANTS NP, NPEERS, NSRC, LIMIT, SEQ, EDGE, AFP
 
-MCInit == InitWith([np |-> NP, npeers |-> NPEERS, nsrc |-> NSRC, limit |-> LIMIT, seq |-> SEQ, edge |-> EDGE])
+MCInit == InitWith([np |-> NP, npeers |-> NPEERS, nsrc |-> NSRC, limit |-> LIMIT, seq |-> SEQ, edge |-> EDGE, have0 |-> {}])
 
 \* allowed-fast pieces restricted to AFP to keep the space small
 MCNext ==
